@@ -267,6 +267,11 @@ def observe_column(col):
         exp_alt = ["~" if m_ else v for v, m_ in zip(vals, masks)]
         if alt != exp_alt:
             raise Violation("view:as_array-masked_value", {"got": alt[:8], "expected": exp_alt[:8]})
+    # the documented parameter is dtype-like: other spellings of the string type give the same array
+    for spelling in (np.str_, "U", "str", np.dtype(str)):
+        other = [str(x) for x in col.as_array(spelling).tolist()]
+        if other != vals:
+            raise Violation("view:as_array-dtype-spelling", {"dtype": repr(spelling), "got": other[:8], "expected": vals[:8]})
     if len(vals) == 1:
         # the scalar view of a single-row column must agree with the array view
         item = col.as_item()
